@@ -400,15 +400,17 @@ fn handle(line: &str) -> String {
             std::fs::write(&src, b"x").unwrap();
             let mut b = rpm::PackageBuilder::new("n", "1", "MIT", "noarch", "s").compression(rpm::CompressionType::None).source_date(1_600_000_000u32);
             let names = ["pre_install", "post_install", "pre_uninstall", "post_uninstall", "pre_trans", "post_trans", "pre_untrans", "post_untrans"];
+            let nprog: usize = match p[1] { "scriptlets_prog1" => 1, "scriptlets_prog3" => 3, _ => 2 };
             let mk = |i: usize, prog: bool| {
                 let s = rpm::Scriptlet::new(format!("t{}", i)).flags(rpm::ScriptletFlags::from_bits_retain(0x8000_0000 | i as u32));
-                if prog { s.prog(vec![format!("p{}", i), format!("q{}", i)]) } else { s }
+                if prog { s.prog(vec![format!("p{}", i), format!("q{}", i), format!("r{}", i)][..nprog].to_vec()) } else { s }
             };
-            let dep = |k: usize, j: usize| rpm::Dependency { name: format!("n{}{}", k, j), flags: rpm::DependencyFlags::from_bits_retain(0x4000_0001 + (k * 2 + j) as u32), version: format!("v{}{}", k, j) };
+            let samename = p[1] == "deps_samename";
+            let dep = |k: usize, j: usize| rpm::Dependency { name: if samename { format!("n{}", k) } else { format!("n{}{}", k, j) }, flags: rpm::DependencyFlags::from_bits_retain(0x4000_0001 + (k * 2 + j) as u32), version: format!("v{}{}", k, j) };
             let mut bad: Vec<String> = Vec::new();
             match p[1] {
-                "scriptlets_prog" | "scriptlets_plain" => {
-                    let prog = p[1] == "scriptlets_prog";
+                "scriptlets_prog" | "scriptlets_prog1" | "scriptlets_prog3" | "scriptlets_plain" => {
+                    let prog = p[1] != "scriptlets_plain";
                     b = b.pre_install_script(mk(0, prog)).post_install_script(mk(1, prog)).pre_uninstall_script(mk(2, prog)).post_uninstall_script(mk(3, prog))
                         .pre_trans_script(mk(4, prog)).post_trans_script(mk(5, prog)).pre_untrans_script(mk(6, prog)).post_untrans_script(mk(7, prog));
                     let pkg = match b.build() { Ok(p) => p, Err(e) => return format!("build-err {:?}", e).replace(' ', "_") };
@@ -475,7 +477,7 @@ fn handle(line: &str) -> String {
                         Err(_) => bad.push(format!("kind{}:err", k)),
                     }
                 }
-                "deps" => {
+                "deps" | "deps_samename" => {
                     for j in 0..2 {
                         b = b.requires(dep(0, j)).provides(dep(1, j)).obsoletes(dep(2, j)).conflicts(dep(3, j)).recommends(dep(4, j)).suggests(dep(5, j)).enhances(dep(6, j)).supplements(dep(7, j));
                     }
@@ -647,10 +649,14 @@ fn handle(line: &str) -> String {
             let mut verdict = "same".to_string();
             for lv in levels {
             let mut b = rpm::PackageBuilder::new("n", "1", "MIT", "noarch", "s").compression(lv);
+            // variant: plain | dup (every file under the same destination) | symlink (the last file is a symbolic-link entry)
+            let variant = p.get(3).copied().unwrap_or("plain");
             for (i, n) in sizes.iter().enumerate() {
                 let f = dir.join(format!("f{}", i));
                 std::fs::write(&f, content(i, *n)).unwrap();
-                b = b.with_file(&f, rpm::FileOptions::new(format!("/d/f{}", i))).unwrap();
+                let o = if variant == "symlink" && i + 1 == sizes.len() { rpm::FileOptions::new("/d/l").mode(0o120777).symlink("/t") }
+                    else if variant == "dup" { rpm::FileOptions::new("/d/f0") } else { rpm::FileOptions::new(format!("/d/f{}", i)) };
+                b = b.with_file(&f, o).unwrap();
             }
             let pkg = b.build();
             let pkg = match pkg { Ok(p) => p, Err(e) => { let _ = std::fs::remove_dir_all(&dir); return format!("build-err {:?}", e).replace(' ', "_") } };
@@ -665,9 +671,25 @@ fn handle(line: &str) -> String {
             if pkg.metadata.signature.get_entry_data_as_string(rpm::IndexSignatureTag::RPMSIGTAG_SHA256).ok() != Some(sha(&hb).as_str()) { bad.push("header".into()); }
             if pkg.metadata.header.get_entry_data_as_string_array(rpm::IndexTag::RPMTAG_PAYLOADDIGEST).ok().map(|v| v.to_vec()) != Some(vec![sha(&pkg.content)]) { bad.push("payload".into()); }
             if comp == "none" && pkg.metadata.header.get_entry_data_as_string_array(rpm::IndexTag::RPMTAG_PAYLOADDIGESTALT).ok().map(|v| v.to_vec()) != Some(vec![sha(&pkg.content)]) { bad.push("payloadalt".into()); }
-            if !sizes.is_empty() {
+            if !sizes.is_empty() && variant == "plain" {
                 let want: Vec<String> = sizes.iter().enumerate().map(|(i, n)| sha(&content(i, *n))).collect();
                 if pkg.metadata.header.get_entry_data_as_string_array(rpm::IndexTag::RPMTAG_FILEDIGESTS).ok().map(|v| v.to_vec()) != Some(want) { bad.push("files".into()); }
+            }
+            if variant != "plain" && comp == "none" {
+                // each recorded file digest names the bytes the archive carries for that file (newc entries, same order as the header)
+                let a = &pkg.content;
+                let mut pos = 0usize;
+                let mut bodies: Vec<String> = Vec::new();
+                while pos + 110 <= a.len() {
+                    let fld = |k: usize| usize::from_str_radix(std::str::from_utf8(&a[pos + 6 + 8 * k..pos + 14 + 8 * k]).unwrap_or("0"), 16).unwrap_or(0);
+                    let (fsize, nsize) = (fld(6), fld(11));
+                    let name = a[pos + 110..pos + 110 + nsize - 1].to_vec();
+                    pos += 110 + nsize; pos += (4 - pos % 4) % 4;
+                    if name == b"TRAILER!!!" { break; }
+                    bodies.push(sha(&a[pos..pos + fsize]));
+                    pos += fsize; pos += (4 - pos % 4) % 4;
+                }
+                if pkg.metadata.header.get_entry_data_as_string_array(rpm::IndexTag::RPMTAG_FILEDIGESTS).ok().map(|v| v.to_vec()) != Some(bodies) { bad.push("files".into()); }
             }
             if pkg.verify_digests().is_err() { bad.push("verify_digests".into()); }
             if !bad.is_empty() { verdict = format!("differs at {}: {}", lv, bad.join(",")).replace(' ', "_"); break; }
